@@ -421,4 +421,230 @@ theorem reloadEval_readset {env env' : Env} (hS : env.Steady) (hS' : env'.Steady
   rw [reloadEval_eq, reloadEval_eq, hL.types]
   exact h
 
+/-! ## Plain loaders under an all-hot environment -/
+
+/-- the top frame of `t` is the top frame of `s` with possibly more records; the stack below is the same -/
+def TopMono (s t : St) : Prop :=
+  ∀ ds rs, s.recs = some ds :: rs → ∃ ds', t.recs = some ds' :: rs ∧ ∀ d, d ∈ ds → d ∈ ds'
+
+theorem TopMono.of_recs_eq {s t : St} (h : t.recs = s.recs) : TopMono s t :=
+  fun ds _ hs => ⟨ds, h.trans hs, fun _ hd => hd⟩
+
+theorem TopMono.refl (s : St) : TopMono s s := TopMono.of_recs_eq rfl
+
+theorem TopMono.trans {a b c : St} (h1 : TopMono a b) (h2 : TopMono b c) : TopMono a c := by
+  intro ds rs hs
+  obtain ⟨ds1, e1, m1⟩ := h1 ds rs hs
+  obtain ⟨ds2, e2, m2⟩ := h2 ds1 rs e1
+  exact ⟨ds2, e2, fun d hd => m2 d (m1 d hd)⟩
+
+theorem topMono_record (s : St) (on : Bool) (d : Dep) : TopMono s (s.record on d) := by
+  cases on with
+  | false => exact TopMono.of_recs_eq rfl
+  | true =>
+    intro ds rs hs
+    exact ⟨depInsert d ds, St.record_recs hs d, fun x hx => (mem_depInsert _ _ _).mpr (Or.inr hx)⟩
+
+theorem topMono_recordAll (s : St) (on : Bool) (l : List Dep) : TopMono s (s.recordAll on l) := by
+  unfold St.recordAll
+  induction l generalizing s with
+  | nil => exact TopMono.refl s
+  | cons d l ih => simp only [List.foldl]; exact (topMono_record s on d).trans (ih _)
+
+theorem topMono_withFrame (push : Bool) (frame) (body : St → St × Outcome) (s : St)
+    (hb : ∀ s, TopMono s (body s).1) : TopMono s (withFrame push frame body s).1 := by
+  cases push with
+  | true => exact TopMono.of_recs_eq (withFrame_restores frame body s)
+  | false => simp only [withFrame, Bool.false_eq_true, if_false]; exact hb s
+
+theorem topMono_loadAndRecord (env : Env) (body : St → St × Outcome) (key : Key) (s : St)
+    (hb : ∀ s, TopMono s (body s).1) : TopMono s (loadAndRecord env body key s).1 := by
+  unfold loadAndRecord
+  have hf := topMono_withFrame (recordsAsset (env.types key.ty).hot env.hasReloader) (some []) body s hb
+  generalize withFrame _ (some []) body s = r at hf ⊢
+  obtain ⟨s1, o, d⟩ := r
+  cases o with
+  | ok v =>
+    simp only []
+    split
+    · exact hf.trans (TopMono.of_recs_eq rfl)
+    · exact hf
+  | err e => exact hf.trans (topMono_recordAll _ _ _)
+  | panicked => exact hf
+  | diverged => exact hf
+
+theorem topMono_cont (o : Outcome) (s : St) (k : Except LErr Val → St → St × Outcome) (wrap)
+    (hk : ∀ r s, TopMono s (k r s).1) : TopMono s (cont o s k wrap).1 := by
+  unfold cont
+  cases o with
+  | ok v => exact hk _ _
+  | err e => exact hk _ _
+  | panicked => exact TopMono.refl s
+  | diverged => exact TopMono.refl s
+
+/-- Every evaluation only adds to the top recording frame. -/
+theorem eval_topMono (env : Env) : ∀ f s p, TopMono s (eval env f s p).1 := by
+  intro f
+  induction f with
+  | zero => intro s p; simp only [eval]; exact TopMono.refl s
+  | succ f ih =>
+    intro s p
+    cases p with
+    | ret v => simp only [eval]; exact TopMono.refl s
+    | fail e => simp only [eval]; exact TopMono.refl s
+    | panic => simp only [eval]; exact TopMono.refl s
+    | read id ext k =>
+      simp only [eval]
+      exact (topMono_record s (recordsRead env.hasReloader) (.file id ext)).trans
+        (TopMono.trans (b := { s.record (recordsRead env.hasReloader) (.file id ext) with
+          ios := (s.record (recordsRead env.hasReloader) (.file id ext)).ios + 1 }) (TopMono.of_recs_eq rfl) (ih _ _))
+    | readDir id k =>
+      simp only [eval]
+      exact (topMono_record s (recordsRead env.hasReloader) (.dir id)).trans
+        (TopMono.trans (b := { s.record (recordsRead env.hasReloader) (.dir id) with
+          ios := (s.record (recordsRead env.hasReloader) (.dir id)).ios + 1 }) (TopMono.of_recs_eq rfl) (ih _ _))
+    | getCached key k =>
+      simp only [eval]
+      exact (topMono_record s _ _).trans (ih _ _)
+    | tick k =>
+      simp only [eval]
+      exact TopMono.trans (b := { s with loads := s.loads + 1 }) (TopMono.of_recs_eq rfl) (ih _ _)
+    | tryCatch body k =>
+      simp only [eval]
+      have hb := ih s body
+      generalize eval env f s body = r at hb ⊢
+      obtain ⟨s1, o⟩ := r
+      cases o with
+      | ok v => exact hb.trans (ih _ _)
+      | err e => exact hb.trans (ih _ _)
+      | panicked => exact hb.trans (ih _ _)
+      | diverged => exact hb
+    | noRecord body k =>
+      simp only [eval]
+      have hf : TopMono s (withFrame true none (fun s => eval env f s body) s).1 :=
+        topMono_withFrame _ _ _ _ (fun s => ih s body)
+      generalize withFrame true none (fun s => eval env f s body) s = r at hf ⊢
+      obtain ⟨s1, o, d⟩ := r
+      exact hf.trans (topMono_cont o s1 _ _ (fun r s => ih s (k r)))
+    | onThread body k =>
+      simp only [eval]
+      have hf : TopMono s (onFreshThread (fun s => eval env f s body) s).1 := TopMono.of_recs_eq rfl
+      generalize onFreshThread (fun s => eval env f s body) s = r at hf ⊢
+      obtain ⟨s1, o⟩ := r
+      exact hf.trans (topMono_cont o s1 _ _ (fun r s => ih s (k r)))
+    | loadOwned key k =>
+      simp only [eval]
+      refine (topMono_record s (recordsAsset (env.types key.ty).hot env.hasReloader) (.asset key)).trans ?_
+      generalize s.record _ _ = s'
+      have hf : TopMono s' (loadAndRecord env (fun s => eval env f s ((env.types key.ty).prog key.id)) key s').1 :=
+        topMono_loadAndRecord _ _ _ _ (fun s => ih s _)
+      generalize loadAndRecord env _ key s' = r at hf ⊢
+      obtain ⟨s1, o⟩ := r
+      cases o with
+      | ok v => exact hf.trans (TopMono.trans (b := s1.handOut key.ty) (TopMono.of_recs_eq rfl) (ih _ _))
+      | err e => exact hf.trans (topMono_cont _ s1 _ _ (fun r s => ih s (k r)))
+      | panicked => exact hf.trans (topMono_cont _ s1 _ _ (fun r s => ih s (k r)))
+      | diverged => exact hf.trans (topMono_cont _ s1 _ _ (fun r s => ih s (k r)))
+    | load key k =>
+      simp only [eval]
+      refine (topMono_record s (recordsAsset (env.types key.ty).hot env.hasReloader) (.asset key)).trans ?_
+      generalize s.record _ _ = s'
+      cases hl : s'.lookup key with
+      | some c => simp only []; exact ih _ _
+      | none =>
+        simp only []
+        have hf : TopMono s' (loadAndRecord env (fun s => eval env f s ((env.types key.ty).prog key.id)) key s').1 :=
+          topMono_loadAndRecord _ _ _ _ (fun s => ih s _)
+        generalize loadAndRecord env _ key s' = r at hf ⊢
+        obtain ⟨s1, o⟩ := r
+        cases o with
+        | ok v =>
+          simp only []
+          refine hf.trans (TopMono.trans ?_ (ih _ _))
+          exact TopMono.of_recs_eq (by simp [St.own])
+        | err e => exact hf.trans (topMono_cont _ s1 _ _ (fun r s => ih s (k r)))
+        | panicked => exact hf.trans (topMono_cont _ s1 _ _ (fun r s => ih s (k r)))
+        | diverged => exact hf.trans (topMono_cont _ s1 _ _ (fun r s => ih s (k r)))
+
+theorem St.isSome_lookup_congr {s t : St} (h : t.map = s.map) {key : Key} (h2 : (s.lookup key).isSome = true) :
+    (t.lookup key).isSome = true := by
+  rw [St.lookup_congr h]; exact h2
+
+/-- **Plain loaders.** Under an environment whose types are all hot-reloaded, the evaluation of a
+`Plain` loader is a tracked hit-only run as soon as every asset it records is cached — a `.load` of
+an asset that is not cached (a miss) leaves that asset in the record. -/
+theorem hitRun_of_plain {env : Env} (hhot : env.Hot) : ∀ (f : Nat) (p : Prog) (s : St) (ds : List Dep) (rs),
+    p.Plain → s.recs = some ds :: rs →
+    (∀ key, Dep.asset key ∈ (eval env f s p).1.top → (s.lookup key).isSome = true) →
+    hitRun env f s p = true := by
+  have hR : recordsRead env.hasReloader = true := hhot.1
+  have hA : ∀ key : Key, recordsAsset (env.types key.ty).hot env.hasReloader = true := by
+    intro key; unfold recordsAsset; rw [hhot.1, hhot.2]; rfl
+  intro f
+  induction f with
+  | zero => intro p s ds rs _ _ _; rfl
+  | succ f ih =>
+    intro p s ds rs hp hs hc
+    cases hp with
+    | ret v => rfl
+    | fail e => rfl
+    | panic => rfl
+    | read id ext k hk =>
+      simp only [eval, hR] at hc
+      simp only [hitRun, hR, Bool.true_and]
+      exact ih _ _ _ _ (hk _) (show St.recs { s.record true (.file id ext) with
+        ios := (s.record true (.file id ext)).ios + 1 } = _ from St.record_recs hs _)
+        (fun key h => St.isSome_lookup_congr (St.record_map s true _) (hc key h))
+    | readDir id k hk =>
+      simp only [eval, hR] at hc
+      simp only [hitRun, hR, Bool.true_and]
+      exact ih _ _ _ _ (hk _) (show St.recs { s.record true (.dir id) with
+        ios := (s.record true (.dir id)).ios + 1 } = _ from St.record_recs hs _)
+        (fun key h => St.isSome_lookup_congr (St.record_map s true _) (hc key h))
+    | getCached key k hk =>
+      simp only [eval, hA] at hc
+      simp only [hitRun, hA, Bool.true_and]
+      exact ih _ _ _ _ (hk _) (St.record_recs hs _)
+        (fun key h => St.isSome_lookup_congr (St.record_map s true _) (hc key h))
+    | tick k hk =>
+      simp only [eval] at hc
+      simp only [hitRun]
+      exact ih _ { s with loads := s.loads + 1 } ds rs (hk _) hs hc
+    | load key k hk =>
+      simp only [hitRun, hA, Bool.true_and, St.record_lookup]
+      cases hl : s.lookup key with
+      | some c =>
+        simp only [eval, hA, St.record_lookup, hl] at hc
+        simp only []
+        exact ih _ _ _ _ (hk _) (St.record_recs hs _)
+          (fun key h => St.isSome_lookup_congr (St.record_map s true _) (hc key h))
+      | none =>
+        exfalso
+        have hm := eval_topMono env (f + 1) s (.load key k) ds rs hs
+        have h1 : TopMono (s.record true (.asset key)) (eval env (f + 1) s (.load key k)).1 := by
+          simp only [eval, hA]
+          generalize hs' : s.record true (.asset key) = s'
+          have hl' : s'.lookup key = none := by rw [← hs', St.record_lookup]; exact hl
+          rw [hl']
+          simp only []
+          have hf : TopMono s' (loadAndRecord env (fun s => eval env f s ((env.types key.ty).prog key.id)) key s').1 :=
+            topMono_loadAndRecord _ _ _ _ (fun s => eval_topMono env f s _)
+          generalize loadAndRecord env _ key s' = r at hf ⊢
+          obtain ⟨s1, o⟩ := r
+          cases o with
+          | ok v =>
+            simp only []
+            refine hf.trans (TopMono.trans ?_ (eval_topMono env f _ _))
+            exact TopMono.of_recs_eq (by simp [St.own])
+          | err e => exact hf.trans (topMono_cont _ s1 _ _ (fun r s => eval_topMono env f s (k r)))
+          | panicked => exact hf.trans (topMono_cont _ s1 _ _ (fun r s => eval_topMono env f s (k r)))
+          | diverged => exact hf.trans (topMono_cont _ s1 _ _ (fun r s => eval_topMono env f s (k r)))
+        obtain ⟨ds', e', m'⟩ := h1 _ rs (St.record_recs hs (.asset key))
+        have hin : Dep.asset key ∈ (eval env (f + 1) s (.load key k)).1.top := by
+          rw [St.top_of_recs e']
+          exact m' _ ((mem_depInsert _ _ _).mpr (Or.inl rfl))
+        have := hc key hin
+        rw [hl] at this
+        cases this
+
 end AmVerif.Model
